@@ -57,6 +57,26 @@ pub fn ser_datum(schema: &Schema, rs: &RSchema, v: &Val, p: &Pres) -> Result<Vec
 	serde_avro_fast::to_datum_vec(&Present::new(rs, v, p), &mut cfg).map_err(|e| e.to_string())
 }
 
+/// Same value, same presentation policy, but the datum is streamed into a sink that accepts only part of each write
+/// (with or without its own write_vectored): the bytes that reach the sink must be those a Vec receives
+pub fn ser_datum_sink(schema: &Schema, rs: &RSchema, v: &Val, p: &Pres, schedule: Vec<usize>, native_vectored: bool) -> Result<Vec<u8>, String> {
+	let mut cfg = ser::SerializerConfig::new(schema);
+	if p.bytes_as_seq {
+		cfg.allow_slow_sequence_to_bytes();
+	}
+	let sink = crate::io::ScheduledSink::new(schedule, native_vectored);
+	serde_avro_fast::to_datum(&Present::new(rs, v, p), sink, &mut cfg).map(|s| s.out).map_err(|e| e.to_string())
+}
+
+pub fn pick_datum_sink_schedule(rng: &mut Rng) -> (Vec<usize>, bool) {
+	let sched = match rng.below(4) {
+		0 => vec![1],
+		1 => vec![*rng.pick(&[2usize, 3, 5, 63, 64, 65])],
+		_ => (0..1 + rng.below(6)).map(|_| 1 + rng.below(24)).collect(),
+	};
+	(sched, rng.coin())
+}
+
 pub struct DeOut<T> {
 	pub res: Result<T, String>,
 	/// bytes consumed (meaningful on success)
